@@ -356,6 +356,26 @@ func c12(c *hx.Ctx) {
 		one(e, mutation{kind: "none"}, 1, ctxs[1])
 		c.Class("large")
 	}
+	// content classes x size classes: compressibility matters to the s2 layer.
+	// Sizes above 64 bytes are atoms on the Coq side (decisions only); the oracle
+	// compares the full plaintext.
+	for ci, class := range contentClasses {
+		for _, size := range []int{0, 1, 15, 16, 17, 4095, 4096, 4097, 8 << 10, 64 << 10, 1 << 20} {
+			k, ctx := (ci+size)%3, ctxs[(ci+size/3)%3]
+			e := encSpec{k: k, ctx: ctx, msg: content(c, class, size), atom: size > 64}
+			one(e, mutation{kind: "none"}, k, ctx)
+			c.Class("content-" + class)
+			c.Class(fmt.Sprintf("size-%d", size))
+			if size >= 4095 && size < 1<<20 {
+				one(e, mutation{kind: "none"}, (k+1)%3, ctx)
+			}
+			if size == 8<<10 || size == 16 {
+				one(e, mutation{kind: "none"}, k, ctxs[(indexOf(ctxs, ctx)+1)%3])
+				one(e, mutation{kind: "flip", pos: 4 + c.Rng.Intn(32), d: byte(1 + c.Rng.Intn(255))}, k, ctx)
+				one(e, mutation{kind: "ext", extra: []byte{0}}, k, ctx)
+			}
+		}
+	}
 	// raw random ciphertexts of every length 0..60
 	for n := 0; n <= 60; n++ {
 		e := encSpec{k: n % 3, ctx: ctxs[n%3], msg: msgs[1]}
@@ -423,6 +443,40 @@ func c12(c *hx.Ctx) {
 			c.Failf("mutated-ciphertext-accepted", map[string]any{"key": e.k, "ctx": e.ctx, "ct": hx.Hex(ct2)}, "a modified/random ciphertext decrypted without error")
 		}
 	}
+}
+
+var contentClasses = []string{"random", "zeros", "one-byte", "pattern8", "prefix-run", "text"}
+
+// content builds a message of the given size and compressibility class.
+func content(c *hx.Ctx, class string, n int) []byte {
+	out := make([]byte, n)
+	switch class {
+	case "random":
+		copy(out, c.RandBytes(n))
+	case "zeros":
+	case "one-byte":
+		for i := range out {
+			out[i] = 0xaa
+		}
+	case "pattern8":
+		pat := c.RandBytes(8)
+		for i := range out {
+			out[i] = pat[i%8]
+		}
+	case "prefix-run": // incompressible prefix followed by a long run
+		p := 512
+		if p > n/2 {
+			p = n / 2
+		}
+		copy(out, c.RandBytes(p))
+	default: // text-like
+		words := []string{"offer ", "answer ", "candidate:1 udp ", "v=0\r\n", "a=group:BUNDLE 0 ", "peer ", "the quick brown fox "}
+		i := 0
+		for i < n {
+			i += copy(out[i:], words[c.Rng.Intn(len(words))])
+		}
+	}
+	return out
 }
 
 // checkPure: decryption is a function of (key, context, ciphertext bytes): it
